@@ -474,6 +474,55 @@ def formula_cases(ctx, rng):
         ctx.count("formula", kind[0])
 
 
+def shared_instance_cases(ctx, rng):
+    """one contrast object used for several factors / level lists behaves like a fresh object each time"""
+    import numpy as np
+    import pandas as pd
+    from formulaic import model_matrix
+    for i in range(ctx.n(40, 400)):
+        n1, n2 = rng.randint(2, 5), rng.randint(2, 5)
+        pool = [f"l{k}" for k in range(7)]
+        lv1 = sorted(rng.sample(pool, n1))
+        lv2 = sorted(rng.sample(pool, n2))
+        common = [l for l in lv1 if l in lv2]
+        kind = rng.choice([("treatment", 0, False), ("sas",), ("sum",), ("helmert", True, False), ("helmert", False, True), ("diff", True), ("diff", False), ("poly", None)]
+                          + ([("treatment", None, True)] if common else []))
+        base_label = rng.choice(common) if kind[0] == "treatment" and kind[2] else None
+        mk = lambda lv: make(("treatment", lv.index(base_label), True) if base_label is not None else kind, lv)
+        shared = mk(lv1)
+        rp = {"kind": "shared-instance", "contrast": list(map(str, kind)), "base": base_label, "levels": [lv1, lv2]}
+        ctx.oracle_runs += 1
+        try:
+            for lv in (lv1, lv2, lv1):
+                for sparse in (False, True):
+                    got = shared.get_coding_matrix(lv, reduced_rank=True, sparse=sparse)
+                    want = mk(lv).get_coding_matrix(lv, reduced_rank=True, sparse=sparse)
+                    g = np.asarray(got.toarray() if sparse else got, dtype=float)
+                    w = np.asarray(want.toarray() if sparse else want, dtype=float)
+                    if g.shape != w.shape or not np.allclose(g, w, atol=1e-12):
+                        ctx.fail(f"a {kind} object (base {base_label!r}) used for levels {lv1} and then {lv2} gives a different coding for {lv} than a fresh object", rp)
+                    if list(shared.get_coding_column_names(lv, reduced_rank=True)) != list(mk(lv).get_coding_column_names(lv, reduced_rank=True)):
+                        ctx.fail(f"a shared {kind} object names the columns for {lv} differently from a fresh object", rp)
+            # through a formula: one object from the context for two factors
+            rows = 8
+            df = pd.DataFrame({"x": pd.Series(lv1 + [rng.choice(lv1) for _ in range(rows - n1)] if rows >= n1 else lv1, dtype=object)})
+            df["z"] = pd.Series((lv2 * rows)[: len(df)], dtype=object)
+            t = mk(lv1)
+            out = rng.choice(["pandas", "numpy", "sparse"])
+            mm = model_matrix("C(x, t) + C(z, t)", df, context={"t": t}, output=out)
+            a = np.asarray(mm.toarray() if out == "sparse" else mm, dtype=float)
+            cx = np.asarray(mk(lv1).get_coding_matrix(lv1, reduced_rank=True), dtype=float).reshape(n1, n1 - 1)
+            lvz = sorted(set(df["z"]))
+            cz = np.asarray(mk(lvz).get_coding_matrix(lvz, reduced_rank=True), dtype=float).reshape(len(lvz), len(lvz) - 1)
+            want = np.hstack([np.ones((len(df), 1)), np.array([cx[lv1.index(v)] for v in df["x"]]).reshape(len(df), -1),
+                              np.array([cz[lvz.index(v)] for v in df["z"]]).reshape(len(df), -1)])
+            if a.shape != want.shape or not np.allclose(a, want, atol=1e-12):
+                ctx.fail(f"'C(x, t) + C(z, t)' with one {kind} object t (base {base_label!r}): columns are not [1 | coding of x | coding of z]", rp)
+        except Exception as e:
+            ctx.fail(f"shared contrast object {kind}: {type(e).__name__}: {e}", rp)
+        ctx.count("shared-instance", kind[0])
+
+
 def run(ctx: Ctx):
     warnings.simplefilter("ignore")
     rng = ctx.fork("c11")
@@ -488,6 +537,7 @@ def run(ctx: Ctx):
     poly_cases(ctx, rng, plits, pdescr)
     encode_cases(ctx, rng, elits, edescr)
     formula_cases(ctx, rng)
+    shared_instance_cases(ctx, rng)
     ctx.run_cases("coding", KIMPORTS, "", "kcase", "chk_contr", klits, kdescr, shard=60)
     ctx.run_cases("polycoding", PIMPORTS, "", "plcase", "chk_poly", plits, pdescr, shard=8)
     ctx.run_cases("encode", KIMPORTS, "", "ecase", "chk_enc", elits, edescr, shard=400)
